@@ -31,6 +31,7 @@ from .symtrace import Sym
 
 PARENT = "7d2e9a4c-1111-4a6b-9c3d-000000000001"
 
+MAX_DECISIONS = 64
 _STATE = {"oracle": 0, "rounds": None, "fmt": None}
 
 
@@ -50,6 +51,14 @@ class ISym(Sym):
 
     def __neg__(self):
         return ISym(f"(-{self.e})", lambda env, a=self: -a.f(env))
+
+    def _cmp(self, sym, o, fn):
+        # a loop that is not bounded by the rounded quotient (e.g. itertools.count with breaks) has paths of
+        # every length: stop instead of enumerating them (the tracer's path limit alone grows quadratically)
+        if st._CUR is not None and len(st._CUR.taken) > MAX_DECISIONS:
+            raise st.Untraceable("more than %d comparisons on one path: the loop is not bounded by the rounded "
+                                 "quotient" % MAX_DECISIONS)
+        return Sym._cmp(self, sym, o, fn)
 
     def __pos__(self):
         return self
@@ -187,7 +196,7 @@ def _pairs_lean(pairs):
 TACTIC = ("unfold {name} SE.Segment.segmentClipWith\n"
           "  simp only [SE.Segment.loop, Except.toOption]\n"
           "  repeat' split\n"
-          "  all_goals first | rfl | (exfalso; grind) | grind | (simp at *; grind)")
+          "  all_goals first | rfl | (exfalso; grind) | grind | grind (splits := 400) | (simp at *; grind (splits := 400))")
 
 
 def register(ctx, ops_mod, namespace, recording, oracles):
@@ -220,6 +229,11 @@ def register(ctx, ops_mod, namespace, recording, oracles):
                     ctx.pre_failed.append(name)
                     ctx.fail("obligation", name, detail=f"symbolic trace of the current source failed: {ex!r}",
                              extra=meta)
+                    continue
+                if m > max(oracles) + 1 and m > n:
+                    # the code's bound overshoots ceil(..) by a constant (harmless: C14_bound_ge); the same body is
+                    # tied through the smaller oracle values, this tree would only be larger
+                    ctx.note(f"{name}: {m} iterations for ceil(..) = {n}; tied through the smaller oracle values only")
                     continue
                 ctx.symbolic_ties[name] = {"paths": len(res), "iterations_for_oracle": [n, m]}
                 hop_term = "dur" if hop_none else "hop"
